@@ -44,7 +44,9 @@ FOREVER = 0xFFFFFF
 PEER = ("10.0.7.9", 30490)
 PEER2 = ("10.0.7.10", 30490)
 INSTS = [dict(sid=0x4001, iid=1, maj=1, minor=3, port=3001), dict(sid=0x4002, iid=2, maj=1, minor=0, port=3002),
-         dict(sid=0x4001, iid=3, maj=2, minor=9, port=3003)]
+         # the third one is the next major version of the first (same service id, same instance id): a look-alike that the
+         # description-based entry points must keep apart
+         dict(sid=0x4001, iid=1, maj=2, minor=9, port=3003)]
 BD = 2.0 ** -4
 
 
@@ -256,7 +258,7 @@ class Run:
 
         def queue_send(entry, remote=None):
             self.qlog.append(("q", self.h.loop.time(), entry.service_id, entry.instance_id, entry.ttl, remote,
-                              int(entry.sd_type)))
+                              int(entry.sd_type), entry.major_version))
             return orig(entry, remote=remote)
 
         ann.queue_send = queue_send
@@ -279,7 +281,10 @@ class Run:
                 self.qlog.append(("start", a["k"], self.h.loop.time()))
                 ann.announce_service(self.insts[a["k"]])
             elif k == "unannounce":
-                ann.stop_announce_service(self.insts[a["k"]])
+                # by instance object, or - as SimpleService.stop_announce does - by its description
+                self.stats["unannounce_calls"] = self.stats.get("unannounce_calls", 0) + 1
+                inst = self.insts[a["k"]]
+                ann.stop_announce_service(inst.service if self.stats["unannounce_calls"] % 2 else inst)
             elif k == "lost":
                 self.prot.connection_lost(None)
             elif k == "find":
@@ -306,17 +311,17 @@ class Run:
 def judge(ctx, cfg, ninst, script, horizon, seed, replay, tags=()):
     run = Run(cfg, ninst, script, seed)
     sent, problems = run.execute(horizon)
-    ids0 = {(INSTS[k]["sid"], INSTS[k]["iid"]): k for k in range(ninst)}
+    ids0 = {(INSTS[k]["sid"], INSTS[k]["iid"], INSTS[k]["maj"]): k for k in range(ninst)}
     first_offers = {}
     for q in run.qlog:
-        if q[0] == "q" and q[6] == 1 and q[4] > 0 and q[5] is None and (q[2], q[3]) in ids0:
-            first_offers.setdefault(ids0[(q[2], q[3])], []).append(q[1])
+        if q[0] == "q" and q[6] == 1 and q[4] > 0 and q[5] is None and (q[2], q[3], q[7]) in ids0:
+            first_offers.setdefault(ids0[(q[2], q[3], q[7])], []).append(q[1])
     if not any(q[0] == "q" for q in run.qlog) and sent:
         # the queue_send boundary was not on the path: fall back to the wire instants (the collection timeout is slack)
         for m in sent:
             for e in m["entries"]:
-                if e["type"] == 1 and e["ttl"] > 0 and m["dst"] == net.MCAST and (e["sid"], e["iid"]) in ids0:
-                    first_offers.setdefault(ids0[(e["sid"], e["iid"])], []).append(m["t"] - cfg["ct"])
+                if e["type"] == 1 and e["ttl"] > 0 and m["dst"] == net.MCAST and (e["sid"], e["iid"], e["maj"]) in ids0:
+                    first_offers.setdefault(ids0[(e["sid"], e["iid"], e["maj"])], []).append(m["t"] - cfg["ct"])
     exp, segs, model_problems = expectations(cfg, ninst, script, horizon, first_offers)
     ctx.count("scenarios")
     ctx.count("queue_log_entries", sum(1 for q in run.qlog if q[0] == "q"))
@@ -343,7 +348,7 @@ def judge(ctx, cfg, ninst, script, horizon, seed, replay, tags=()):
         return
     for mech, detail in model_problems:
         bad(mech, **detail)
-    ids = {(INSTS[k]["sid"], INSTS[k]["iid"]): k for k in range(ninst)}
+    ids = {(INSTS[k]["sid"], INSTS[k]["iid"], INSTS[k]["maj"]): k for k in range(ninst)}
     tol = 4 * RES
     # ---- wire monitor: every Offer entry must be explained by the timeline, every 'must' must appear.
     # Windows may overlap (collection slack, answer windows), so this is a bipartite matching problem: by the
@@ -355,7 +360,7 @@ def judge(ctx, cfg, ninst, script, horizon, seed, replay, tags=()):
             if e["type"] != 1:
                 bad("announcer-sent-a-non-offer-entry", entry=e, t=msg["t"])
                 continue
-            k = ids.get((e["sid"], e["iid"]))
+            k = ids.get((e["sid"], e["iid"], e["maj"]))
             if k is None:
                 bad("offer-for-unknown-instance", entry=e)
                 continue
@@ -443,8 +448,8 @@ def judge(ctx, cfg, ninst, script, horizon, seed, replay, tags=()):
             stopped.pop(q[1], None)
             started_at[q[1]] = q[2]
         else:
-            _, t, sid, iid, ttl, remote, typ = q
-            k = ids.get((sid, iid))
+            _, t, sid, iid, ttl, remote, typ, maj = q
+            k = ids.get((sid, iid, maj))
             if k is None or typ != 1:
                 continue
             if ttl == 0:
